@@ -228,7 +228,15 @@ def expected_terms(ureg, units: dict, spec):
         e = Fraction(e)
         disp = n
         if "~" in spec and "Lx" not in spec:
-            disp = ureg.get_symbol(n)
+            # the symbol written in the definition files (independent reader), prefix symbol + unit symbol for prefixed units; the live
+            # registry is only asked where the definitions do not decide (delta_ units, names with several readings)
+            R_ = env.R()
+            canon = _canon_of(R_, n)
+            if canon is not None and canon[1] in R_.units:
+                p_, c_ = canon
+                disp = ((R_.prefixes[p_].symbol or p_) if p_ else "") + (R_.units[c_].symbol or c_)
+            else:
+                disp = ureg.get_symbol(n)
         out.append((disp, abs(e), "num" if e > 0 else "den"))
     return sorted(out)
 
@@ -402,7 +410,7 @@ def _quantity_strategy(nit):
         mags = st.one_of(st.integers(-10 ** 6, 10 ** 6), st.fractions(-1000, 1000, max_denominator=97))
     return st.builds(lambda u, m, ms, us, short, hashc: {"units": u, "m": m, "mspec": ms, "spec": short + us, "nit": nit, "compact": hashc},
                      st.dictionaries(st.sampled_from(names), st.integers(-3, 3).filter(bool), min_size=0, max_size=3), mags, st.sampled_from(MSPECS),
-                     st.sampled_from(["", "D", "C", "P"]), st.sampled_from(["", "~"]), st.booleans())
+                     st.sampled_from(["", "D", "C", "P", "L"]), st.sampled_from(["", "~"]), st.booleans())
 
 
 def case_quantity(case, col=None):
@@ -425,7 +433,19 @@ def case_quantity(case, col=None):
     s, utext = attempt(format, q.units, case["spec"])
     if s == "err":
         raise Violation(f"format_unit_raised:{exc_class(utext)}", f"{units} {case['spec']!r}")
-    if mspec:
+    if "L" in case["spec"]:
+        # LaTeX: the magnitude in the requested numeric format, exponent notation written as mantissa \times 10^{exponent} (whatever the sign,
+        # sign flag or padding), then '\ ' and the unit
+        import re as _re
+
+        mtext = format(m, mspec).strip() if mspec else None
+        if mtext is not None and isinstance(m, (int, float)):
+            mo = _re.fullmatch(r"([+-]?[\d.]+)[eE]([+-]?)(\d+)", mtext)
+            want_m = f"{mo.group(1)}\\times 10^{{{'-' if mo.group(2) == '-' else ''}{int(mo.group(3))}}}" if mo else mtext
+            got_m = text.split("\\ ")[0].strip() if utext else text.strip()
+            if got_m != want_m:
+                raise Violation("latex_magnitude_not_as_requested", f"format(Q({m!r},{units}), {mspec + case['spec']!r}) = {text!r}: magnitude part {got_m!r}, expected {want_m!r}")
+    elif mspec:
         mtext = format(m, mspec)
         # documented joining rule: '3' and '1 / m' become '3 / m'
         want = (mtext + " " + (utext[2:] if utext.startswith("1 / ") else utext)).strip() if utext else mtext
@@ -494,7 +514,40 @@ def case_settings(case, col=None):
             raise Violation("sort_func_changed_content", f"{units}: {t!r}")
 
 
+_CTX_REG = {}
+CTX_REDEFS = [("pound = 0.5 * kilogram", "pound"), ("foot = 0.3 * meter", "foot"), ("hour = 3000 * second", "hour")]
+
+
+def case_in_context(case, col=None):
+    """While a context that redefines a unit is active, that unit (and its prefixed forms) still render with their names and symbols."""
+    import pint
+
+    R = env.R()
+    line, name = CTX_REDEFS[case["i"] % len(CTX_REDEFS)]
+    if line not in _CTX_REG:
+        reg = env.fresh("float")
+        ctx = pint.Context("rdfmt")
+        ctx.redefine(line)
+        reg.add_context(ctx)
+        _CTX_REG[line] = reg
+    ureg = _CTX_REG[line]
+    units = {k.replace("UNIT", name): v for k, v in case["units"].items()}
+    if col is not None:
+        col.case(("ctx", line, str(sorted(units.items())), case["spec"]), True, sample={"redefinition": line, "units": units, "spec": case["spec"]}, cls="in_context:" + case["spec"].replace("~", ""))
+    with ureg.context("rdfmt"):
+        check_unit_format(ureg, R, units, case["spec"], "float", roundtrip=False)
+        q = ureg.Quantity(3, ureg.UnitsContainer(dict(units)))
+        s_, t = attempt(format, q, case["spec"])
+        if s_ == "err":
+            raise Violation(f"format_quantity_raised:in_context:{exc_class(t)}", f"{units} {case['spec']!r}: {t!r}")
+    check_unit_format(ureg, R, units, case["spec"], "float", roundtrip=False)
+
+
 def run_settings(task, tier, seed, col):
+    for i in range(len(CTX_REDEFS)):
+        for units in ({"UNIT": 1, "inch": -2}, {"kiloUNIT": 1}, {"UNIT": -1, "meter": 1}, {"milliUNIT": 2, "second": -1}):
+            for spec in ("~", "~P", "~C", "~H", "~L", "~Lx", "P", "D"):
+                col.run_case(lambda c: case_in_context(c, col), {"i": i, "units": units, "spec": spec})
     names = ["meter", "second", "kilogram", "kelvin", "newton", "ampere", "mole"]
     strat = st.builds(lambda u, d, m: {"units": u, "defaults": d, "m": m}, st.dictionaries(st.sampled_from(names), st.integers(-3, 3).filter(bool), min_size=1, max_size=3),
                       st.lists(st.sampled_from(["", "~", "P", "~P", "C", "~C", "H", "L", "~L", ".3f", ".2f~P", "Lx", "#~P", "#.2f~C", "#~", "#P"]), min_size=1, max_size=4),
@@ -507,4 +560,6 @@ def run_task(task, tier, seed, col):
 
 
 def replay(sub, case):
+    if sub == "settings" and "i" in case:
+        return case_in_context(case)
     return {"units": case_unit, "compound": case_compound, "quantity": case_quantity, "settings": case_settings}[sub](case)
